@@ -169,6 +169,11 @@ func vfParse(raw []byte, out *cptvframe.Frame, edge int) error {
 		for x := range out.Pix[y] {
 			out.Pix[y][x] = binary.LittleEndian.Uint16(raw[i:])
 			i += 2
+			// like the real parsers: a zero outside the edge border (as told by the processor) is a bad frame
+			onEdge := y < edge || x < edge || y >= len(out.Pix)-edge || x >= len(out.Pix[y])-edge
+			if !onEdge && out.Pix[y][x] == 0 {
+				return vfBadFrame
+			}
 		}
 	}
 	if raw[0] != 0 {
@@ -267,7 +272,7 @@ func vfDrive(c vfRecCase, perEvent func(run *vfRecRun, i int)) *vfRecRun {
 				v := uint16(vfBase)
 				onEdge := y < c.Cfg.Edge || x < c.Cfg.Edge || y >= c.Cfg.H-c.Cfg.Edge || x >= c.Cfg.W-c.Cfg.Edge
 				if onEdge {
-					v = uint16(id*7 + x + y) // border content is irrelevant
+					v = uint16((id*7 + x + y) % 5) // border content is irrelevant, zeros included
 				}
 				if y == c.Cfg.Edge && x == c.Cfg.Edge && lvl {
 					v = vfBase + vfDelta + 1
